@@ -67,7 +67,7 @@ Proof.
   destruct (split_last c_colon s) as [[a p]|] eqn:E.
   - destruct (split_last_spec _ _ _ _ E) as [Es Hp].
     assert (Ha : has c_colon a = false).
-    { apply count_zero_has. rewrite Es, count_app in Hc. simpl in Hc. rewrite Ascii.eqb_refl in Hc.
+    { apply count_zero_has. rewrite Es, count_app in Hc. simpl in Hc. try rewrite Ascii.eqb_refl in Hc.
       rewrite (has_false_count _ _ Hp) in Hc. lia. }
     destruct s as [|c af]; [discriminate|].
     rewrite (has_false_first _ _ _ Hl). rewrite Ha, Hl, Hr. exists a, p. reflexivity.
@@ -120,12 +120,13 @@ Proof.
   unfold endpoint_sound, safe_token.
   destruct Hshape as [(Es & Hhc & Hl & Hr)|(Es & Hl & Hr)].
   - assert (Hcount : count_char c_colon s = 1).
-    { rewrite Es, count_app. simpl. rewrite Ascii.eqb_refl, (has_false_count _ _ Hhc), (has_false_count _ _ Hp). reflexivity. }
+    { rewrite Es, count_app. simpl. rewrite (has_false_count _ _ Hhc), (has_false_count _ _ Hp). reflexivity. }
+    assert (Hsl : split_last c_colon s = Some (h, p)) by (rewrite Es; apply split_last_app; exact Hp).
     assert (Hpt : port_text s = Some p).
     { unfold port_text. destruct s as [|c r]; [destruct h; discriminate|].
-      rewrite (has_false_first _ _ _ Hl). rewrite Hcount. simpl. rewrite Es, (split_last_app _ _ _ Hp). reflexivity. }
+      rewrite (has_false_first _ _ _ Hl), Hcount, Hsl. reflexivity. }
     rewrite Hpt. subst s. rewrite !forallb_app. simpl forallb. rewrite Hs1, Hs2, Hn1, Hn2.
-    destruct colon_ok as [C1 C2]. rewrite C1, C2. simpl.
+    destruct colon_ok as [C1 C2]. rewrite ?C1, ?C2. simpl.
     assert (Hne : is_nil (h ++ c_colon :: p) = false) by (destruct h; reflexivity). rewrite Hne. simpl. exact Hport.
   - assert (Hpt : port_text s = Some p).
     { unfold port_text. rewrite Es. rewrite Ascii.eqb_refl. simpl orb.
@@ -135,7 +136,7 @@ Proof.
       rewrite (split_last_app _ _ _ Hp). reflexivity. }
     rewrite Hpt. subst s. simpl forallb. rewrite !forallb_app. simpl forallb. rewrite Hs1, Hs2, Hn1, Hn2.
     destruct colon_ok as [C1 C2]. destruct lbr_ok as [L1 L2]. destruct rbr_ok as [R1 R2].
-    rewrite C1, C2, L1, L2, R1, R2. simpl. exact Hport.
+    rewrite ?C1, ?C2, ?L1, ?L2, ?R1, ?R2. simpl. exact Hport.
 Qed.
 
 Lemma validate_endpoint_sound : forall v s, validate_endpoint v s = true -> endpoint_sound true s = true.
@@ -155,10 +156,11 @@ Lemma whole_host_sound : forall s, s <> [] -> forallb host_char s = true ->
   (forall h p, split_host_port s <> SHP_ok h p) -> endpoint_sound false s = true.
 Proof.
   intros s Hne Hh Hno. destruct (host_forall _ Hh) as (Hs1 & Hs2 & Hl & Hr).
-  unfold endpoint_sound, safe_token. rewrite Hs1, Hs2. destruct s as [|c r]; [congruence|]. simpl is_nil. simpl.
-  unfold port_text. rewrite (has_false_first _ _ _ Hl). simpl orb.
-  destruct (count_char c_colon (c :: r) =? 1) eqn:Ec; [|reflexivity].
-  apply Nat.eqb_eq in Ec. destruct (one_colon_splits _ Ec Hl Hr) as (h & p & E). exfalso. exact (Hno _ _ E).
+  assert (Hpt : port_text s = None).
+  { unfold port_text. destruct s as [|c r]; [reflexivity|]. rewrite (has_false_first _ _ _ Hl). cbn [orb].
+    destruct (count_char c_colon (c :: r) =? 1) eqn:Ec; [|reflexivity].
+    apply Nat.eqb_eq in Ec. destruct (one_colon_splits _ Ec Hl Hr) as (h & p & E). exfalso. exact (Hno _ _ E). }
+  unfold endpoint_sound, safe_token. rewrite Hpt, Hs1, Hs2. destruct s; [congruence|]. reflexivity.
 Qed.
 
 Lemma validate_endpoint_optional_port_sound : forall v s,
@@ -187,17 +189,17 @@ Proof.
       simpl is_nil in H. cbv iota in H. destruct (host_chars _ H) as [_ Hh].
       destruct (host_forall _ Hh) as (_ & _ & Hl & Hr).
       destruct Hshape as [(Es & _ & _ & _)|(Es & _ & _)].
-      * apply (shape_sound s [] p false Hp); auto. left. simpl. repeat split; auto.
+      * apply (shape_sound s [] p false Hp); auto.
       * rewrite Es in Hl. simpl in Hl. discriminate.
     + simpl is_nil in H. cbv iota in H. destruct (host_chars _ H) as [_ Hh].
       apply (shape_sound s (hc :: h') p false Hp Hshape Hh Hn Hport).
-  - simpl in H. rewrite Enil in H. destruct (host_chars _ H) as [_ Hh].
+  - simpl in H. try rewrite Enil in H. destruct (host_chars _ H) as [_ Hh].
     apply whole_host_sound; auto. intros h p E'. congruence.
-  - simpl in H. rewrite Enil in H. destruct (host_chars _ H) as [_ Hh].
+  - simpl in H. try rewrite Enil in H. destruct (host_chars _ H) as [_ Hh].
     apply whole_host_sound; auto. intros h p E'. congruence.
   - simpl in H.
-    destruct (contains (lit "missing port") s || contains (lit "too many colons") s); [|discriminate].
-    simpl in H. rewrite Enil in H. destruct (host_chars _ H) as [_ Hh].
+    match type of H with (if negb ?b then false else _) = true => destruct b; [|discriminate] end.
+    simpl in H. try rewrite Enil in H. destruct (host_chars _ H) as [_ Hh].
     apply whole_host_sound; auto. intros h p E'. congruence.
 Qed.
 
